@@ -61,13 +61,19 @@ FIXED = [
  ("C02", "_generate_cell_corners fills the owner list", "cell corners pre-filled with vertices only: cell indices appended to the vertex list instead of the owner list"),
  ("C02", "edge attributes survive the removal of invalid edges", "dropping an invalid edge lost the values of dense edge attributes (ValueError for vector ones) and the custom default of sparse ones"),
  ("C02", "cell/face connectivity works when cells are numpy rows", "face_to_cells / cell_to_face / in_cell_face_index raised ValueError on volume meshes whose cells are numpy rows (from_arrays)"),
+ ("C16", "singularity cutter reaches every face", "SingularityCutter with a feature detector and >= 1 singularity: faces enclosed by forbidden feature edges were never reached by the dual search and the cut mesh fell apart into several components"),
  ("C14", "circumcenter lies in the plane", "geometry.circumcenter dropped the normal offset of the triangle's plane (dual_mesh circumcenter mode put vertices in the wrong plane)"),
 ]
 
 # (property, (subcheck, callee, kind, input_class), what fails, optional tiers)
 _C18B = "face-based frame field: a face with two border/feature edges takes its constraint from whichever of them has the largest edge id and its basis from the first one in face order, so the field depends on which vertex such a face is listed from (repair = average the constraints as the vertex version does: a behaviour change for the maintainer to decide)"
 _C18C = "vertex-based frame field with smooth_normals=True and even order: the constraint at interior feature (crease) vertices is computed by geometric projection in a basis whose X axis is the first ring edge while transport uses flattened chart angles, so the constrained direction moves by a few degrees when a face is listed from another vertex (repair = a canonical basis at crease vertices: redesign)"
+_C16D1 = "SingularityCutter on a closed sphere with exactly two adjacent singular vertices: the cut is a single edge, which cannot be opened in an indexed mesh (neither end is duplicated), so the output is the uncut sphere although the edge is reported in cut_edges (repair = explicit seam data or keeping a longer cut: a design decision)"
 KNOWN = [
+ ("C16", ("C16.disk.border_loops", "SingularityCutter.output_mesh", "mismatch:border_loops", "sphere|S2:adj|geom=any|feat=off"), _C16D1),
+ ("C16", ("C16.opened_iff_cut", "SingularityCutter.cut_edges", "mismatch:reported_edge_not_opened", "sphere|S2:adj|geom=any|feat=off"), _C16D1),
+ ("C16", ("C16.disk.border_loops", "SingularityCutter.output_mesh", "mismatch:border_loops", "sphere|S2:adj|geom=*|feat=crease"), _C16D1),
+ ("C16", ("C16.opened_iff_cut", "SingularityCutter.cut_edges", "mismatch:reported_edge_not_opened", "sphere|S2:adj|geom=*|feat=crease"), _C16D1),
  ("C18", ("C18.invariance.face_start", "SurfaceFrameField(faces).run", "mismatch:direction_relative_to_edge", "order!=4:faces:bordered:ns0:feat:corner_faces"), _C18B),
  ("C18", ("C18.invariance.face_start", "SurfaceFrameField(faces).run", "mismatch:direction_relative_to_edge", "order!=4:faces:bordered:ns0:nofeat:corner_faces"), _C18B),
  ("C18", ("C18.invariance.face_start", "SurfaceFrameField(faces).run", "mismatch:direction_relative_to_edge", "order4:faces:bordered:ns0:feat:corner_faces"), _C18B),
